@@ -1,6 +1,6 @@
 (* C10 correspondence: each case carries the inputs and what the implementation returned. *)
 Require Import Coq.Strings.String.
-From PV Require Import Lib.Base Crypto.Blake2b C10.Model.
+From PV Require Import Lib.Base Crypto.Hex Crypto.Blake2b C10.Model.
 Open Scope Z_scope.
 
 (* byte strings arrive as hex string literals (fast to elaborate) *)
